@@ -113,6 +113,15 @@ Proof.
 Qed.
 
 (* if the body reaches the marks, the transaction holds exactly the fault-free effect *)
+Lemma stmts_run_go : forall sched a ss n t first n1 t1,
+  stmts_run sched a n t ss first = TGo n1 t1 -> t1 = fold_left (stmt_eff a) ss t.
+Proof.
+  induction ss as [|s ss IH]; intros n t first n1 t1 H; cbn [stmts_run fold_left] in *.
+  - inversion H. reflexivity.
+  - destruct first.
+    + apply IH in H. exact H.
+    + destruct (sched (n + 1)%N); try discriminate. apply IH in H. exact H.
+Qed.
 Lemma group_steps_go : forall sched a gs n t n1 t1,
   fold_left (group_step sched a) gs (TGo n t) = TGo n1 t1 -> t1 = fold_left (group_eff a) gs t.
 Proof.
@@ -120,9 +129,13 @@ Proof.
   - inversion H. reflexivity.
   - unfold group_step at 2 in H.
     destruct (sched (n + 1)%N).
-    + destruct (sched (n + 2)%N).
-      * apply IH in H. exact H.
-      * apply IH in H. exact H.
+    + destruct (stmts_run sched a (n + 1) (group_pre a t) g true) as [n2 t2|n2 s2|n2 p2] eqn:E.
+      * apply stmts_run_go in E. subst t2. fold (group_eff a t g) in H.
+        destruct (sched (n2 + 1)%N).
+        -- apply IH in H. exact H.
+        -- apply IH in H. exact H.
+        -- rewrite group_steps_dead in H. discriminate.
+      * rewrite group_steps_err in H. discriminate.
       * rewrite group_steps_dead in H. discriminate.
     + rewrite group_steps_err in H. discriminate.
     + rewrite group_steps_dead in H. discriminate.
@@ -273,6 +286,24 @@ Proof. intros marks t H c Hc Hn. apply cellinv_recompute. apply H; assumption. Q
 Lemma in_eff_marks_batch : forall sk b r c, In r b -> In c (eff_marks sk r) -> In c (batch_marks sk b).
 Proof. intros sk b r c Hr Hc. unfold batch_marks. apply in_flat_map. exists r. split; assumption. Qed.
 
+Lemma in_req_ops : forall r g st o, In g (r_groups r) -> In st g -> In o st -> In o (req_ops r).
+Proof.
+  intros r g st o Hg Hs Ho. unfold req_ops. apply in_concat. exists (concat g). split.
+  - apply in_map. exact Hg.
+  - apply in_concat. exists st. split; assumption.
+Qed.
+Lemma inv_outside_group : forall marks a g t,
+  (forall st, In st g -> forall o, In o st -> op_cell o = 0%N \/ In (op_cell o) marks) ->
+  inv_outside marks t -> inv_outside marks (group_eff a t g).
+Proof.
+  intros marks a g t Hg H. unfold group_eff.
+  assert (Hp : inv_outside marks (group_pre a t)).
+  { unfold group_pre. destruct (a_kind a); try exact H. apply inv_outside_recompute. exact H. }
+  revert Hp. generalize (group_pre a t). clear H t. induction g as [|st g IH]; intros t H; cbn [fold_left]; [exact H|].
+  apply IH.
+  - intros st' Hst'. apply Hg. right. exact Hst'.
+  - unfold stmt_eff. destruct (a_kind a); try (apply inv_outside_apply_ops; [apply (Hg st); left; reflexivity|exact H]). exact H.
+Qed.
 Lemma inv_outside_req : forall sk marks r t,
   Covers sk r -> (forall c, In c (eff_marks sk r) -> In c marks) ->
   inv_outside marks t -> inv_outside marks (req_eff sk t r).
@@ -280,13 +311,12 @@ Proof.
   intros sk marks r t Hcov Hsub H. unfold req_eff.
   destruct (arm_of sk (r_kind r)) as [a|] eqn:Ea; [|exact H].
   destruct (a_fallible a); [|exact H].
-  assert (Hg : forall g, In g (r_groups r) -> forall o, In o g -> op_cell o = 0%N \/ In (op_cell o) marks).
-  { intros g Hgin o Ho. destruct (Hcov o) as [Z|I]; [unfold req_ops; apply in_concat; exists g; split; assumption|auto|auto]. }
+  assert (Hg : forall g, In g (r_groups r) -> forall st, In st g -> forall o, In o st -> op_cell o = 0%N \/ In (op_cell o) marks).
+  { intros g Hgin st Hst o Ho. destruct (Hcov o) as [Z|I]; [eapply in_req_ops; eauto|auto|auto]. }
   clear Hcov. revert t H. induction (r_groups r) as [|g gs IH]; intros t H; cbn [fold_left]; [exact H|].
   apply IH.
-  - intros g' Hg' o Ho. apply (Hg g'); [right; exact Hg'|exact Ho].
-  - unfold group_eff. destruct (a_kind a); try (apply inv_outside_apply_ops; [apply (Hg g); left; reflexivity|exact H]).
-    apply inv_outside_recompute. exact H.
+  - intros g' Hg'. apply Hg. right. exact Hg'.
+  - apply inv_outside_group; [apply Hg; left; reflexivity|exact H].
 Qed.
 
 Theorem txn_body_loginv : forall sk b d,
@@ -337,20 +367,31 @@ Proof.
   induction gs as [|g gs IH]; intros t; cbn [fold_left concat]; auto.
   rewrite IH, apply_ops_app. reflexivity.
 Qed.
-Lemma fold_recompute_data : forall (gs : list (list op)) t, data_eq (fold_left (fun t _ => recompute t) gs t) t.
+Lemma group_eff_data : forall a t g,
+  data_eq (group_eff a t g) (apply_ops t (match a_kind a with KCompute => [] | _ => concat g end)).
 Proof.
-  induction gs as [|g gs IH]; intros t; cbn [fold_left]; [apply data_eq_refl|].
-  eapply data_eq_trans; [apply IH|apply data_eq_recompute].
+  intros a t g. unfold group_eff, group_pre, stmt_eff. destruct (a_kind a);
+    try (change (fold_left (fun t0 s => apply_ops t0 s) g t) with (fold_left apply_ops g t);
+         rewrite fold_apply_ops_concat; apply data_eq_refl).
+  cbn [apply_ops fold_left]. induction g as [|st g IH]; cbn [fold_left]; [apply data_eq_recompute|exact IH].
+Qed.
+Lemma groups_eff_data : forall a gs t,
+  data_eq (fold_left (group_eff a) gs t)
+          (apply_ops t (match a_kind a with KCompute => [] | _ => concat (map (@concat op) gs) end)).
+Proof.
+  intros a. induction gs as [|g gs IH]; intros t; cbn [fold_left map concat].
+  - destruct (a_kind a); apply data_eq_refl.
+  - eapply data_eq_trans; [apply IH|].
+    pose proof (group_eff_data a t g) as Hg. destruct (a_kind a);
+      try (rewrite apply_ops_app; apply data_eq_apply_ops; exact Hg).
+    cbn [apply_ops fold_left] in *. exact Hg.
 Qed.
 Lemma req_eff_data : forall sk t r, data_eq (req_eff sk t r) (apply_ops t (eff_ops sk r)).
 Proof.
   intros sk t r. unfold req_eff, eff_ops.
   destruct (arm_of sk (r_kind r)) as [a|]; [|apply data_eq_refl].
   destruct (a_fallible a); [|apply data_eq_refl].
-  unfold group_eff. destruct (a_kind a);
-    try (change (fold_left (fun t0 g => apply_ops t0 g) (r_groups r) t) with (fold_left apply_ops (r_groups r) t);
-         rewrite fold_apply_ops_concat; apply data_eq_refl).
-  apply fold_recompute_data.
+  unfold req_ops. apply groups_eff_data.
 Qed.
 Lemma txn_body_data : forall sk b d, data_eq (txn_body sk b d) (apply_ops d (flat_map (eff_ops sk) b)).
 Proof.
@@ -445,4 +486,60 @@ Proof.
   - destruct (ack_batch sk ok au b) as [items au']. cbn [rr_state].
     apply IH; [|exact Hst']. intros r Hr. apply Hcov. cbn [concat]. apply in_or_app. right. exact Hr.
   - cbn [rr_state]. exact Hst'.
+Qed.
+
+(* ------------------------------------------------------------------ one batch, used by the start script *)
+Lemma run_batch_loginv : forall sk sched n st b,
+  (forall r, In r b -> Covers sk r) -> LogInv (w_disk st) ->
+  LogInv (w_disk (fst (fst (fst (run_batch sk sched n st b))))).
+Proof.
+  intros sk sched n st b Hb Hinv.
+  pose proof (run_batch_atomic sk sched n st b) as Hat. cbv zeta in Hat.
+  destruct (run_batch sk sched n st b) as [[[st' o] n'] last]. cbn [fst snd] in *.
+  destruct o as [[|]|[|]]; cbn [batch_post] in Hat.
+  - destruct Hat as [_ [Hd _]]. rewrite Hd. apply txn_body_loginv; assumption.
+  - rewrite Hat. exact Hinv.
+  - destruct Hat as [_ [Hd _]]. rewrite Hd. apply txn_body_loginv; assumption.
+  - rewrite Hat. exact Hinv.
+Qed.
+
+(* no fault: the batch is committed and acknowledged *)
+Definition all_go : schedule := fun _ => Continue.
+Lemma stmts_run_go_all : forall a ss n t first, exists n', stmts_run all_go a n t ss first = TGo n' (fold_left (stmt_eff a) ss t).
+Proof.
+  intros a. induction ss as [|s ss IH]; intros n t first; cbn [stmts_run fold_left]; [eauto|].
+  destruct first; [apply IH|]. unfold all_go at 1. apply IH.
+Qed.
+Lemma group_steps_go_all : forall a gs n t, exists n', fold_left (group_step all_go a) gs (TGo n t) = TGo n' (fold_left (group_eff a) gs t).
+Proof.
+  intros a. induction gs as [|g gs IH]; intros n t; cbn [fold_left]; [eauto|].
+  unfold group_step at 2. unfold all_go at 1.
+  destruct (stmts_run_go_all a g (n + 1)%N (group_pre a t) true) as [n2 E]. rewrite E. unfold all_go at 1.
+  fold (group_eff a t g). apply IH.
+Qed.
+Lemma req_steps_go_all : forall sk b n t, exists n', fold_left (req_step sk all_go) b (TGo n t) = TGo n' (fold_left (req_eff sk) b t).
+Proof.
+  intros sk. induction b as [|r b IH]; intros n t; cbn [fold_left]; [eauto|].
+  unfold req_step at 2. unfold req_eff at 2. destruct (arm_of sk (r_kind r)) as [a|]; [|apply IH].
+  destruct (a_fallible a); [|apply IH].
+  destruct (group_steps_go_all a (r_groups r) n t) as [n2 E]. rewrite E. apply IH.
+Qed.
+Lemma run_batch_go_all : forall sk n st b, w_stuck st = false ->
+  exists n' last, run_batch sk all_go n st b = ({| w_disk := txn_body sk b (w_disk st); w_stuck := false |}, Returned true, n', last).
+Proof.
+  intros sk n st b Hs. unfold run_batch. unfold all_go at 1. rewrite Hs.
+  destruct (req_steps_go_all sk b (n + 1)%N (w_disk st)) as [n1 E]. rewrite E.
+  unfold all_go at 1. unfold all_go at 1. unfold all_go at 1. unfold ack_point. unfold all_go at 1.
+  unfold txn_body. eauto.
+Qed.
+Lemma run_batches_go_all : forall sk bs n st au, w_stuck st = false ->
+  Forall (fun x => it_committed x = true) (rr_items (run_batches sk all_go n st au bs)) /\
+  rr_alive (run_batches sk all_go n st au bs) = true.
+Proof.
+  intros sk. induction bs as [|b bs IH]; intros n st au Hs; cbn [run_batches]; [split; [constructor|reflexivity]|].
+  destruct (run_batch_go_all sk n st b Hs) as [n' [last E]]. rewrite E.
+  pose proof (ack_batch_items sk true b au) as [_ Hi2].
+  destruct (ack_batch sk true au b) as [items au']. cbn [fst] in Hi2. cbn [rr_items rr_alive].
+  destruct (IH n' {| w_disk := txn_body sk b (w_disk st); w_stuck := false |} au' eq_refl) as [IH1 IH2].
+  split; [apply Forall_app; split; assumption|exact IH2].
 Qed.
